@@ -533,6 +533,26 @@ func genOut(r *Rng) mseCase {
 			ks := refKS(false, s, skey, 1032)
 			copy(padB[r.Range(0, padBLen-8):], ks[1024:1032])
 		}
+	case 3, 4:
+		// a sync marker that overlaps itself, behind a pad that ends like the marker begins: the receiver's key is
+		// searched until ENCRYPT(VC) starts with two equal bytes (1 in 256 keys), and PadB ends with 1..3 copies of
+		// that byte. A scan that does not fall back correctly after a partial match steps over the true marker.
+		for try := 0; try < 4000; try++ {
+			xb := r.Bytes(20)
+			s2 := refDH(refPub(c.xa), xb)
+			ks := refKS(false, s2, skey, 1032)
+			if ks[1024] == ks[1025] && ks[1026] != ks[1024] {
+				c.xb, s = xb, s2
+				if padBLen == 0 {
+					padBLen = r.Range(1, 100)
+					padB = r.Bytes(padBLen)
+				}
+				for k := 1; k <= r.Range(1, 3) && k <= padBLen; k++ {
+					padB[padBLen-k] = ks[1024]
+				}
+				break
+			}
+		}
 	}
 	ia := genPayload(r, false)
 	pa := genPayload(r, false)
